@@ -443,8 +443,9 @@ class ThreadPool(object):
         :param timeout: Maximum time to wait (in seconds)
         :return: True if the queue has been emptied, else False
         """
-        if self._queue.empty():
-            # Nothing to wait for...
+        if not self._queue.unfinished_tasks:
+            # Nothing to wait for: every queued task has been executed
+            # (an empty queue is not enough: tasks might still be running)
             return True
         elif timeout is None:
             # Use the original join
